@@ -5,6 +5,7 @@ package checker
 
 // Check runs outside any recover: it must not panic (C04).
 //@ func checker.Check returns t err
+//@   assigns *
 //@   property C03 C04
 //@   mode nopanic
 //@   requires tree != nil && tree.Source != nil
@@ -18,6 +19,7 @@ package checker
 //@   pure
 
 //@ func checker.visitor.ClosureNode
+//@   assigns *
 //@   property C04
 //@   requires v != nil && node != nil
 
@@ -28,6 +30,7 @@ package checker
 
 // the first error wins and carries the location of the offending node (C13)
 //@ func checker.visitor.error returns t
+//@   assigns obj(v)
 //@   property C13
 //@   mode panics
 //@   requires v != nil && node != nil
